@@ -43,10 +43,11 @@ theorem afterPE_reset (c : Cfg) (s : St) (hc : s.cleaned = false) (hr : s.upstre
       if c.env.oneway then ret s Oneway
       else if resetRetry c s then
         (if s.direct then
-          (if s.phase ≠ UpFilter then ret (consumeDirect (setRetry s)) UpFilter else ret (consumeDirect (setRetry s)) End)
+          (if s.phase ≠ UpFilter then ret (consumeDirect (setRetry s)) UpFilter
+           else { consumeDirect (setRetry s) with phase := s.phase + 1 })   -- [proxy7] fix a3a21969e: the response pass goes on
          else ret (setRetry s) Retry)
       else if s.phase ≠ UpFilter then ret (consumeDirect (onUpstreamReset c.env.resetCode s)) UpFilter
-      else ret (consumeDirect (onUpstreamReset c.env.resetCode s)) End := by
+      else { consumeDirect (onUpstreamReset c.env.resetCode s) with phase := s.phase + 1 } := by
   simp only [afterPE, afterPEd, processError, ops, hc, hr, consumeDirect]
   by_cases ho : c.env.oneway = true <;> by_cases hq : resetRetry c s = true <;> by_cases hp : s.phase = UpFilter <;>
     by_cases hd : s.direct = true <;> by_cases hpd : s.procDone = true <;>
@@ -259,15 +260,14 @@ theorem afterPE_back (c : Cfg) (s : St) (ha : s.again = InitPhase) (hp : DownRec
           · split
             · split
               · exact Or.inl (by simp; decide)
-              · exact Or.inr (ret_End_halted _)
+              · exact Or.inl (by simp [consumeDirect, setRetry, liftF]; omega)
             · exact Or.inr (by simp [ret_Retry])
         · split
           · refine ⟨by simp [consumeDirect, onUpstreamReset, liftF, sendHijack], by simp [consumeDirect, onUpstreamReset, liftF, sendHijack],
               Or.inl (by simp; decide), fun _ => ⟨by simp [consumeDirect], ?_⟩⟩
             rw [ret_retried _ UpFilter (by decide)]; rfl
-          · refine ⟨by simp [consumeDirect, onUpstreamReset, liftF, sendHijack], by simp [ret_End_halted],
-              Or.inr (ret_End_halted _), fun _ => ⟨by simp [consumeDirect], ?_⟩⟩
-            rw [ret_retried _ End (by decide)]; rfl
+          · exact ⟨by simp [consumeDirect, onUpstreamReset, liftF, sendHijack], by simp [consumeDirect],
+              Or.inl (by simp [consumeDirect, onUpstreamReset, liftF, sendHijack]; omega), fun _ => ⟨by simp [consumeDirect], rfl⟩⟩
     · have hr : s.upstreamReset = false := by simpa using hr
       by_cases hd : s.direct = true
       · rw [afterPE_direct c s hc hr hd]
@@ -778,9 +778,13 @@ theorem afterPE_frame (c : Cfg) (g : St) : Frame g (afterPE c g) := by
       · exact (Frame.refl g).ret _
       · split
         · split
-          · split <;> exact (frame_consume_setRetry g).ret _
+          · split
+            · exact (frame_consume_setRetry g).ret _
+            · exact ⟨rfl, rfl, rfl, rfl, rfl, rfl, rfl⟩
           · exact (frame_setRetry g).ret _
-        · split <;> exact (frame_consume_reset g _).ret _
+        · split
+          · exact (frame_consume_reset g _).ret _
+          · exact ⟨rfl, rfl, rfl, rfl, rfl, rfl, rfl⟩
     · have hr : g.upstreamReset = false := by simpa using hr
       by_cases hd : g.direct = true
       · rw [afterPE_direct c g hc hr hd]
